@@ -608,6 +608,22 @@ fn twin_case(case: u64, rng: &mut Rng, rep: &mut Report, thorough: bool) {
     rep.count("syscall_twin_images", images);
 }
 
+/// Forced schedule `tvmon::sched::stale_gc_window_schedule`: the old generation finishes its merge
+/// while the successor's commit stands between the replacement of meta.json and the directory sync.
+fn gc_window_case(case: u64, rng: &mut Rng, rep: &mut Report) {
+    rep.eval();
+    let out = tvmon::sched::stale_gc_window_schedule(rng);
+    for c in &out.counters {
+        rep.count(c, 1);
+    }
+    for (sig, d) in out.problems {
+        rep.violation(format!("gc-window:{sig}"), json!({"case": case, "shape": out.shape, "detail": d}));
+    }
+    if out.forced {
+        rep.nontrivial(format!("gc-window:{}", out.shape));
+    }
+}
+
 fn main() {
     let argv: Vec<String> = std::env::args().collect();
     if let Some(i) = argv.iter().position(|a| a == "--mmap-child") {
@@ -621,10 +637,11 @@ fn main() {
     let mut rep = run_cases(&ctx, "crash", n, |c, rng, rep| case(c, rng, rep, thorough));
     let n_twin = ctx.scale(4, 48) as u64;
     rep.merge(run_cases(&ctx, "syscall", n_twin, |c, rng, rep| twin_case(c, rng, rep, thorough)));
+    rep.merge(run_cases(&ctx, "gc-window", ctx.scale(40, 1500) as u64, gc_window_case));
     simple_finish(
         &ctx,
         rep,
-        "case = one crash image = (boundary after a mutating storage op of a recorded history) x (persistence outcome: pending dir-ops none/all/M1 prefix/M2 subset; unsynced data lost/full/random prefix); evaluations counts images recovered with Index::open and compared with the allowed model commits (last acknowledged, or in flight), checksum-validated, and (every 8th boundary) continued with writer+commit+GC. Non-trivial = image holds at least one segment file; distinct = (op kind at boundary, thread role, file kind, outcome kind).",
+        "case = one crash image = (boundary after a mutating storage op of a recorded history) x (persistence outcome: pending dir-ops none/all/M1 prefix/M2 subset; unsynced data lost/full/random prefix); evaluations counts images recovered with Index::open and compared with the allowed model commits (last acknowledged, or in flight), checksum-validated, and (every 8th boundary) continued with writer+commit+GC. Non-trivial = image holds at least one segment file; distinct = (op kind at boundary, thread role, file kind, outcome kind). Stream gc-window = forced schedule: writer dropped with its merge thread parked, the commit of the successor parked between the meta.json replacement and the directory sync, the old generation then finishes; the online monitor T3 (no unlink of a file the durable meta.json references) decides.",
         ctx.scale(40, 100),
         &[
             "durability model of DESIGN.md §3.1: data durable at terminate(), directory entries at the next sync_directory(); atomic_write content is synced before its rename",
